@@ -4,6 +4,10 @@ and, beside it, the proved sequence-level model `Model.LruSeq`; any difference b
 layers is appended to the response line (`SEQ-DIFFERS …`) so that it shows up as a
 correspondence failure.  The two layers are allowed to part only after a reload has dropped an
 all-zero key (the recorded format-level finding), where `LruSeq` stops being exact by design.
+Until then the pointer state must also satisfy the (executable part of the) representation
+invariant of the refinement proof on every step (`REP-BROKEN` otherwise), and `filecheck` reads
+the model's own checkpoint file back as a linked list, to be compared with the same reading of
+the file the real code wrote.
 
 MD5 is a parameter of the model; the driver instantiates it with a constant (the hash field is
 not an observable of the property, and the model only ever reads files it wrote itself).
@@ -91,6 +95,26 @@ def parseOp (keys : List LruPtr.Key) : List String → Option (Op LruPtr.Key)
   | ["reopen"] => some .reopen
   | _ => none
 
+/-- the executable side of the representation invariant of `Proofs/LruRefine` (`RepF`): the
+`next` walk ends inside the fuel, `prev` and `mru_head` mirror it, linked + free = capacity =
+array length, `len()` = number of linked slots.  Proved to hold after every history without a
+reload; checked here on EVERY step of every generated history (reloads included) while the two
+layers are supposed to agree. -/
+def repHolds (p : LruPtr.Ptr) : Bool :=
+  match p.slots with
+  | none => false
+  | some L =>
+    LruPtr.prevOk p.entries LruPtr.SENT L && p.header.head == L.getLastD LruPtr.SENT &&
+    p.entries.length == p.cap && L.length + p.freeList.length == p.cap && LruPtr.len p == L.length
+
+/-- `filecheck`: the checkpoint file of the current generation read as a doubly linked list. -/
+def fmtFileView (st : DState) : String :=
+  match LruPtr.fileView md5c st.ptr with
+  | none => "nofile"
+  | some none => "file walk=bad"
+  | some (some v) =>
+    s!"file n={v.entries} linked={fmtOrder st.index (some v.linked)} free={v.free} stale={v.stale} prev={if v.prevOk then "ok" else "bad"} head={if v.headOk then "ok" else "bad"}"
+
 /-- does this op restore a snapshot that holds the all-zero key (at the `LruSeq` level)? -/
 def restoresZero (q : LruSeq.Seq LruPtr.Key) : Op LruPtr.Key → Bool
   | .load g => match Files.lookup q.files g with
@@ -113,6 +137,7 @@ def handle (st : DState) (toks : List String) : DState × String :=
     | _, _ => (st, "bad-op")
   | _ =>
     if !st.started then (st, "bad-op") else
+    if toks == ["filecheck"] then (st, s!"{fmtFileView st} | {ptrView st st.ptr}") else
     match parseOp st.keys toks with
     | none => (st, "bad-op")
     | some op =>
@@ -126,6 +151,7 @@ def handle (st : DState) (toks : List String) : DState × String :=
           && hasBits st.keys (p'.keyMap.map (·.1)) == hasBits st.keys q'.order && p'.gen == q'.gen && p'.prev == q'.prev
         let line := if exact && !same then
           line ++ " SEQ-DIFFERS " ++ s!"{fmtOut op qout} | {seqView st q'}" else line
+        let line := if exact && !repHolds p' then line ++ " REP-BROKEN" else line
         ({ st with ptr := p', seq := q', seqExact := exact }, line)
 
 def main : IO Unit := do
